@@ -25,8 +25,16 @@ func init() {
 		if method == EncryptionMethodPlain {
 			lens = []int{0, 1, 2, 5, 13} // shorter than a frame header: not a frame under any method
 		}
+		ws := c.P("ws", "0") == "1"
+		if ws && method != EncryptionMethodPlain {
+			// the WebSocket transport: binary messages up to exactly the size of the session's read buffer
+			lens = []int{0, 1, 13, 14, 15, 30, 31, 300, 16640, 20479, 20480}
+		}
 		o, _ := MakeObfuscator(method, rigKey)
 		rec := func(b []byte) []byte {
+			if ws {
+				return b // one binary message per Write
+			}
 			return append([]byte{0x17, 0x03, 0x03, byte(len(b) >> 8), byte(len(b))}, b...)
 		}
 		p1, p2 := []byte("first valid frame"), []byte("second valid frame")
@@ -50,9 +58,17 @@ func init() {
 					}
 				}
 				net := vnet.New()
-				a, b := net.Pair("rec", false)
 				sesh := MakeSession(7, SessionConfig{Obfuscator: o, Valve: UNLIMITED_VALVE, MsgOnWireSizeLimit: prodLimit})
-				sesh.AddConnection(common.NewTLSConn(b))
+				var a io.Writer
+				if ws {
+					cliW, srvW, _, _ := common.VerifWSPair(net, "rec")
+					sesh.AddConnection(srvW)
+					a = cliW
+				} else {
+					ca, b := net.Pair("rec", false)
+					sesh.AddConnection(common.NewTLSConn(b))
+					a = ca
+				}
 				if c.PI("conns", 1) == 2 {
 					// the injected record comes first; the two valid frames then arrive on two connections and are
 					// handled by two receive loops at the same time
@@ -87,7 +103,7 @@ func init() {
 			},
 		}
 		rep := vx.RunSched(c, sc, sigOf("C11"))
-		rep.Notes = append(rep.Notes, fmt.Sprintf("injected record lengths %v x fills zeros/ones/lcg", lens))
+		rep.Notes = append(rep.Notes, fmt.Sprintf("injected record lengths %v x fills zeros/ones/lcg (websocket transport: %v)", lens, ws))
 		return rep
 	}})
 }
